@@ -30,6 +30,8 @@ func main() {
 		to := fs.Int("timeout", 30000, "per query timeout ms")
 		dbg := fs.Bool("debug", false, "trace")
 		norep := fs.Bool("noreplay", false, "skip native replay")
+		verbose := fs.Bool("v", false, "per-job progress on stderr")
+		prm := fs.String("param", "", "lo:hi restriction for parametrised harnesses")
 		grp := fs.String("groups", "", "override harness groups (comma separated)")
 		fs.Parse(os.Args[2:])
 		if t := os.Getenv("VERIF_TIER"); t != "" && *tier == "" {
@@ -39,7 +41,12 @@ func main() {
 		if *grp != "" {
 			g = strings.Split(*grp, ",")
 		}
-		os.Exit(check.RunProperty(check.Options{Prop: *p, Tier: *tier, Groups: g, Workers: *workers, TimeoutMs: *to, Only: *only, Debug: *dbg, NoReplay: *norep}))
+		o := check.Options{Verbose: *verbose}
+		if *prm != "" {
+			fmt.Sscanf(*prm, "%d:%d", &o.PLo, &o.PHi)
+			o.PSet = true
+		}
+		os.Exit(check.RunProperty(check.Options{Verbose: o.Verbose, PLo: o.PLo, PHi: o.PHi, PSet: o.PSet, Prop: *p, Tier: *tier, Groups: g, Workers: *workers, TimeoutMs: *to, Only: *only, Debug: *dbg, NoReplay: *norep}))
 	}
 	fmt.Println("unknown command")
 	os.Exit(2)
